@@ -11,7 +11,8 @@ MODULE = "D42.Props.C06All"
 THEOREMS = ["repr_scalar_roundtrip", "reprScalar_eq_calls", "repr_scalar_stable", "pattern_excludes_len",
             "represent_listE_layout", "reprElems_indent",
             "rebuild_roundtrip", "rebuild_same_repr", "rebuild_roundtrip_counterexample", "hC06C_rebuild_roundtrip_iff", "declarable_example",
-            "reprScalar_eq_extracted", "lenToks_eq"]
+            "reprScalar_eq_extracted", "lenToks_eq",
+            "extracted_print_eq_calls", "extracted_print_roundtrip"]
 FILES = ["D42/Model/Data.lean", "D42/Model/Repr.lean", "D42/Model/Decl.lean", "D42/Props/C11.lean", "D42/Props/C06.lean", "D42/Props/C06Containers.lean",
          "D42/Model/CheckProg.lean", "D42/Model/ReprProg.lean", "D42/Gen/ReprProg.lean", "D42/Props/ReprProg.lean", "D42/Props/C06All.lean"]
 
